@@ -20,6 +20,9 @@ pub struct UnionModel {
     pub saw_array: bool,
     /// distinct virtual items (pool indices) merged so far: the "true" cardinality
     pub items: BTreeSet<u32>,
+    /// register values were not drawn from the geometric law of a hash (tall registers planted): the
+    /// estimate is then no estimate of the number of items, and the band clause does not apply
+    pub artificial: bool,
 }
 
 impl UnionModel {
@@ -31,6 +34,7 @@ impl UnionModel {
             regs: vec![0; 1 << lg_max_k],
             saw_array: false,
             items: BTreeSet::new(),
+            artificial: false,
         }
     }
     pub fn add_coupon(&mut self, c: u32) {
@@ -198,6 +202,15 @@ pub fn observe(ctx: &mut Ctx, u: &HllUnion, model: &UnionModel, what: &str, fp: 
         ctx.check(r.is_empty() == model.is_empty(), "union emptiness != model", || what.clone());
         bs.push(bounds_of(&r));
         fp.u64(st.mode as u64);
+        // the result is a sketch like any other: its image must read back as the same state
+        match HllSketch::deserialize(&r.serialize()) {
+            Ok(d) => {
+                let ds = d.verif_state();
+                let same = ds.mode == st.mode && ds.lg_k == st.lg_k && ds.registers == st.registers && dump_coupons(&ds) == dump_coupons(&st);
+                ctx.check(same, "union result changes in a serialize/deserialize round trip", || format!("{} to_sketch({})", what, tname(t)));
+            }
+            Err(e) => ctx.violation("union result's own image does not deserialize", format!("{} to_sketch({}): {}", what, tname(t), e)),
+        }
     }
     // to_sketch must not change the union
     let g1 = u.verif_gadget_state();
@@ -242,7 +255,7 @@ pub fn observe(ctx: &mut Ctx, u: &HllUnion, model: &UnionModel, what: &str, fp: 
                     "union of non-empty inputs reports estimate 0",
                     format!("{}: result #{} (0-2 = Hll4/6/8, 3 = union) estimate {}", what, i, est),
                 );
-            } else if (est / n).ln().abs() > 8.0 * 1.04 / k.sqrt() + 3.0 / n {
+            } else if !model.artificial && (est / n).ln().abs() > 8.0 * 1.04 / k.sqrt() + 3.0 / n {
                 // the band is in log space: at k = 16 the error of a correct HLL estimate is far from
                 // Gaussian on the high side (a linear 8-sigma band fired once in ~1e5 correct cases)
                 ctx.violation(
@@ -261,11 +274,25 @@ fn union_case(ctx: &mut Ctx, case: &Json) {
     let n_steps = rng.usize(1, 6);
     // pool of virtual items: hash-like coupons (uniform 26-bit slot, geometric value)
     let pool_n = 6usize << max_in_lg.max(lg_max_k);
+    // a sixth of the cases plant tall registers (values up to 63, clustered around the places where the
+    // library's representation changes: 15 above cur_min, the 2^-32 split of the KxQ sums, the 6-bit limit)
+    let tall = case.bool("tall").unwrap_or_else(|| rng.below(6) == 0);
+    let lift = *rng.pick(&[0u32, 10, 26, 30, 31, 44, 58]);
     let pool: Vec<u32> = (0..pool_n)
-        .map(|_| m::make_coupon(rng.next_u32() & m::KEY_MASK_26, (rng.geometric(62) + 1) as u8))
+        .map(|_| {
+            let mut v = rng.geometric(62) + 1;
+            if tall && rng.chance(0.5) {
+                v = (v + lift).min(63);
+            }
+            m::make_coupon(rng.next_u32() & m::KEY_MASK_26, v as u8)
+        })
         .collect();
     let mut u = HllUnion::new(lg_max_k);
     let mut model = UnionModel::new(lg_max_k);
+    model.artificial = tall;
+    if tall {
+        ctx.cover("tall_registers_planted");
+    }
     let mut since_reset: Vec<usize> = vec![];
     let mut inputs: Vec<Input> = vec![];
     let mut values_since_reset: Vec<u64> = vec![];
@@ -278,6 +305,7 @@ fn union_case(ctx: &mut Ctx, case: &Json) {
             0 => {
                 u.reset();
                 model = UnionModel::new(lg_max_k);
+                model.artificial = tall;
                 since_reset.clear();
                 values_since_reset.clear();
                 log.push("reset".into());
